@@ -58,6 +58,19 @@ def wf(s):
 
 
 # ------------------------------------------------------------------------------------------------- snapshots (C15 / C17)
+def _ipr_state(comp):
+    """the interpolator's own arrays and bounds (analysis calls must not touch them)"""
+    ip = getattr(comp, "_ipr", None)
+    if ip is None: return None
+    import numpy as np
+    out = {"class": type(ip).__name__}
+    for k, v in sorted(vars(ip).items()):
+        if isinstance(v, np.ndarray): out[k] = v.tolist()
+        elif isinstance(v, (int, float, str, list, tuple, bool)) or v is None: out[k] = v
+        else: out[k] = "obj:%d" % id(v)
+    return json.dumps(out, sort_keys=True, default=str)
+
+
 def snap_internal(s):
     g = s._g; a = g.attrs
     return {"nodes": dict(a["nodes"]), "rails": dict(a["rails"]), "groups": dict(a["groups"]), "phase_conf": copy.deepcopy(a["phase_conf"]), "phases": copy.deepcopy(a["phases"]),
@@ -66,7 +79,8 @@ def snap_internal(s):
             "graph": sorted(g[i]._params["name"] for i in g.node_indices()),
             "objs": {g[i]._params["name"]: id(g[i]) for i in g.node_indices()},
             "params": {g[i]._params["name"]: json.dumps(g[i]._params, sort_keys=True, default=str) for i in g.node_indices()},
-            "limits": {g[i]._params["name"]: json.dumps(g[i]._limits, sort_keys=True, default=str) for i in g.node_indices()}}
+            "limits": {g[i]._params["name"]: json.dumps(g[i]._limits, sort_keys=True, default=str) for i in g.node_indices()},
+            "interp": {g[i]._params["name"]: _ipr_state(g[i]) for i in g.node_indices()}}
 
 
 def frame_txt(df):
@@ -106,9 +120,9 @@ def random_op(rnd, m, cnt):
     if k == "add":
         kind = rnd.choice(EDIT_KINDS)
         nm = rnd.choice([fresh, fresh, fresh, fresh, rnd.choice(pool)]) or fresh
-        rail = rnd.choice(["", "", "R%d" % cnt, rnd.choice(pool)])
+        rail = rnd.choice(["", "", "R%d" % cnt, rnd.choice(pool), rnd.choice(pool) + " ", " " + rnd.choice(pool)])      # names differing only by surrounding blanks are different names
         par = rnd.sample(pool, min(len(pool), rnd.randint(1, 3))) if (kind == "PMux" and rnd.random() < 0.7) else rnd.choice(pool)
-        return {"op": "add_comp", "parent": par, "comp": spec_of(kind, nm, rnd), "group": rnd.choice(["", "g"]), "rail": rail}
+        return {"op": "add_comp", "parent": par, "comp": spec_of(kind, nm, rnd), "group": rnd.choice(["", "g"]), "rail": rail, "werror": rnd.random() < 0.1}
     if k == "add_source":
         nm = rnd.choice([fresh, fresh, rnd.choice(pool)]) or fresh
         kind = "Source" if rnd.random() < 0.9 else "RLoss"
@@ -117,7 +131,7 @@ def random_op(rnd, m, cnt):
         tgt = rnd.choice(pool); kind = rnd.choice(EDIT_KINDS + ["Source"])
         if tgt in m.nodes and rnd.random() < 0.5: kind = m.nodes[tgt].kind
         nm = rnd.choice([tgt, tgt, fresh, rnd.choice(pool)]) or fresh
-        return {"op": "change_comp", "name": tgt, "comp": spec_of(kind, nm, rnd), "group": rnd.choice(["", "g2"]), "rail": rnd.choice(["", "", "R%d" % cnt, rnd.choice(pool)])}
+        return {"op": "change_comp", "name": tgt, "comp": spec_of(kind, nm, rnd), "group": rnd.choice(["", "g2"]), "rail": rnd.choice(["", "", "R%d" % cnt, rnd.choice(pool)]), "werror": rnd.random() < 0.1}
     if k == "del":
         return {"op": "del_comp", "name": rnd.choice(pool), "del_childs": rnd.random() < 0.5}
     if k == "phases":
@@ -134,7 +148,7 @@ def random_op(rnd, m, cnt):
 
 
 def op_text(op):
-    if "comp" in op: return "%s(%s%s, %s %r, rail=%r)" % (op["op"], (repr(op.get("parent")) + ", ") if "parent" in op else (repr(op.get("name")) + ", " if "name" in op else ""), "", op["comp"]["kind"], op["comp"]["name"], op.get("rail", ""))
+    if "comp" in op: return "%s(%s%s, %s %r, rail=%r)" % (op["op"], (repr(op.get("parent")) + ", ") if "parent" in op else (repr(op.get("name")) + ", " if "name" in op else ""), "", op["comp"]["kind"], op["comp"]["name"], op.get("rail", "")) + (" [warnings=error]" if op.get("werror") else "")
     return json.dumps(op)
 
 
@@ -164,8 +178,8 @@ def run_history(ops, props, check_public=True, probe_every=0):
                     fail("reject.public", "rejected call #%d %s (%s) changed reports: %s" % (i, op_text(op), type(exc).__name__, d), ["C15"]); break
             continue
         errs = wf(s)
-        if errs:
-            fail("wf", "after accepted call #%d %s: %s" % (i, op_text(op), errs[0]), ["C14"]); break
+        if errs and not any(f["key"] == "wf" for f in F):
+            fail("wf", "after accepted call #%d %s: %s" % (i, op_text(op), errs[0]), ["C14"])      # recorded; the history goes on (the reference model stays in step)
         try:
             m.apply(op)
         except Exception as e:
@@ -298,6 +312,22 @@ BASES = [
 ]
 
 
+def _src(name, vo):
+    sp = spec_of("Source", name); sp["args"] = dict(sp["args"], vo=vo); return sp
+
+
+def _mux3(inputs, v0, v1):
+    """S0 (rail R0), S1 (rail R1), tap F0 (RLoss, rail RF) below S0; a 3-input mux over `inputs`; one load below the mux"""
+    return [{"op": "system", "comp": _src("S0", v0), "group": "", "rail": "R0"}, {"op": "add_source", "comp": _src("S1", v1), "group": "", "rail": "R1"},
+            {"op": "add_comp", "parent": "S0", "comp": spec_of("RLoss", "F0"), "group": "", "rail": "RF"},
+            {"op": "add_comp", "parent": list(inputs), "comp": spec_of("PMux", "MX"), "group": "", "rail": ""}, {"op": "add_comp", "parent": "MX", "comp": spec_of("ILoad", "L0"), "group": "", "rail": ""}]
+
+
+# 3-input muxes where one input (the tap F0) hangs below another input, addressed by name or by rail, in every priority order that
+# matters for re-linking (del_comp keeping children, renames): the tables before/after differ visibly because S0 and S1 differ
+BASES += [_mux3(("F0", "R0", "S1"), 0.0, 9.0), _mux3(("F0", "S1", "S0"), 5.0, 9.0), _mux3(("S1", "RF", "R0"), 5.0, 0.0), _mux3(("R0", "S1", "F0"), 5.0, 9.0)]
+
+
 def alphabet(m):
     """~30 valid / invalid operations relative to the model m of a base system"""
     names = list(m.nodes); inner = [n for n in names if m.nodes[n].type not in ("LOAD",)]
@@ -343,6 +373,14 @@ def alphabet(m):
     A.append({"op": "set_sys_phases", "phases": {"x": 1.0, "y": 2.0}})                       # phase plan redefined: earlier configurations name only undefined phases
     A.append({"op": "set_sys_phases", "phases": {"a": 5.0, "b": 0.5}})                       # same names, other durations
     A.append({"op": "change_comp", "name": inner[-1], "comp": spec_of(m.nodes[inner[-1]].kind, "NEWNAME"), "group": "", "rail": "NEWNAME"})    # new rail == new name
+    A.append({"op": "add_comp", "parent": [], "comp": spec_of("PMux", "NE1"), "group": "g", "rail": "RE1"})          # an empty input list (raises; nothing may stay behind)
+    A.append({"op": "add_comp", "parent": [], "comp": spec_of("ILoad", "NE2"), "group": "", "rail": ""})
+    A.append({"op": "add_comp", "parent": inner[0], "comp": spec_of("RLoss", "NB1"), "group": "", "rail": (rails[0] if rails else first) + " "})        # differs from a used rail / name by a trailing blank only: a different, free name
+    A.append({"op": "add_comp", "parent": inner[0], "comp": spec_of("RLoss", "NB2"), "group": "", "rail": " NB2"})                                      # differs from its own name by a leading blank
+    A.append({"op": "add_source", "comp": spec_of("Source", "NB3"), "group": "", "rail": " " + first})
+    A.append({"op": "change_comp", "name": inner[-1], "comp": spec_of(m.nodes[inner[-1]].kind, inner[-1]), "group": "", "rail": first + " "})
+    A.append({"op": "add_comp", "parent": inner[-1], "comp": spec_of("PLoad", "WL"), "group": "", "rail": "WR", "werror": True})     # 'rail ignored on loads' warning raised as an error
+    A.append({"op": "change_comp", "name": last, "comp": spec_of("ILoad", "WL2"), "group": "", "rail": "WR2", "werror": True})
     for n in [x for x in inner if m.nodes[x].type != "SOURCE"][:2]:
         k = m.nodes[n].kind
         A.append({"op": "change_comp", "name": n, "comp": spec_of("Source", n + "_src"), "group": "", "rail": ""})        # -> Source under a new name: rejected
@@ -362,7 +400,7 @@ def exhaustive_case(args):
     F, s, m = run_history(ops, props, check_public=True, probe_every=(1 if sum(combo) % 2 else 0))
     if not [f for f in F if set(f["props"]) & set(props)] and len(m.nodes) and all(o is not None for o in [s]):
         # (a failure that belongs to another property does not end this property's examination of the history)
-        complete = not F
+        complete = not [f for f in F if f["key"] != "wf"]       # a WF failure does not desynchronise the reference model
         try:
             F = F + (compare_with_rebuilt(s, m, ops, bi * 1000 + sum(combo), props) if (complete or "C16" in props) else [])
         except Exception:
@@ -400,7 +438,7 @@ def random_case(args):
     out["hash"] = _hash(allops)
     F, s2, m2 = run_history(copy.deepcopy(allops), props, check_public=(idx % 4 == 0), probe_every=rnd.choice([0, 1, 2]))
     if not [f for f in F if set(f["props"]) & set(props)]:
-        complete = not F
+        complete = not [f for f in F if f["key"] != "wf"]
         try:
             F = F + (compare_with_rebuilt(s2, m2, allops, seed + idx, props) if (complete or "C16" in props) else [])
         except Exception:
